@@ -43,6 +43,12 @@ class DocEngine:
         cfg["src_family"] = rng.weighted([("template", 3), ("sample", 5)], "src_family")
         if prop == "C10":
             cfg["p_clone"] = rng.choice([0.15, 0.3, 0.6], "p_clone")
+        if prop == "C13":
+            # swarm: most insertions of a run go to a few focus families, so that the same
+            # family sees named, unnamed, automatic and common insertions one after the other
+            from engines import doc_styles as _ds
+            fams = _ds.STD_FAMILIES + sorted(_ds.XML_FAMILIES)
+            cfg["focus_families"] = rng.sample(fams, rng.randint(1, 3, "nfocus"), "focus")
         return cfg
 
     # ----------------------------------------------------------------- init
